@@ -11,7 +11,9 @@ Streams
   textlines   theorem-hypothesis tie for C02_tag_lines: texts of several tag lines
   lint        a sample of grid files through `reuse lint --json`
   window      tag lines around the 4096-byte boundary, multi-byte characters on the cut, snippet marker before / after / absent
-  snippetfile files with a snippet marker: the marker straddling 4096*k, 8-20 KiB files with tags / ignore blocks on the boundaries
+  snippetfile files with a snippet marker: the marker straddling 4096*k and every buffer-size-like offset from 4 KiB to 1 MiB (powers of two,
+              odd multiples, decimal sizes), 8-20 KiB files with tags / ignore blocks on the boundaries
+  notations   lines holding two copyright notations, the lower-ranking one (word, sign) to the left of the notice proper
   parseerror  an unparseable expression anywhere in the file => the file contributes nothing; the converse shape
   decode      decoded_text_from_binary against the model's UTF-8 decoder on random byte strings
   smallenum   exhaustive small-alphabet lines `<pre> TAG <value> <trail>`
@@ -706,6 +708,19 @@ class LintStream(Stream):
 
 
 FILL_ASCII = "x = 1  # filler line\n"
+
+# Offsets at which a reader that works through a file piece by piece could cut it: every power of two from 4 KiB to 1 MiB and
+# sizes that are not powers of two (odd multiples of a page / of 64 KiB, decimal sizes).  The snippet marker may lie across
+# any of them (and across their multiples); the property knows no such offsets: "the whole file when it contains a marker".
+BOUNDS_POW = [1 << e for e in range(12, 21)]
+BOUNDS_ODD = [10000, 12288, 24576, 40960, 100000, 196608, 327680, 1000000]
+MODEL_MAX_BYTES = 140 * 1024        # larger files are judged by the oracle only (the driver would spend ~2 s per MiB)
+
+
+def model_infofile(data: bytes):
+    if len(data) > MODEL_MAX_BYTES:
+        return []
+    return ["infofile\t%s\t%s" % (enc_bytes(data), enc_list(bad_values(data)))]
 WIDE = ["é", "€", "😀", "ß", "中"]
 
 
@@ -714,7 +729,9 @@ class WindowStream(Stream):
     rule = ("files of 3-9 KiB: filler, then one tag line (licence or copyright, LF/CRLF) whose first byte lies at an offset from 3990 to "
             "4200 (every offset within 40 bytes of 4096 in the thorough tier), the filler ending in multi-byte characters so that the cut "
             "falls inside a character; the snippet marker absent, before the tag, after the tag, or itself straddling the cut; also a tag "
-            "line early in the file followed by > 4 KiB; oracle: a line wholly inside the first 4096 bytes is found, one starting at byte "
+            "line early in the file followed by > 4 KiB; and files of up to 1 MiB (3 MiB thorough) whose marker lies far behind the tag, "
+            "across one of 17 buffer-size-like offsets (every power of two from 4 KiB to 1 MiB, 10000, 12288, 24576, 40960, 100000, 196608, "
+            "327680, 1000000; thorough: their 2nd and 3rd multiples and every one of the 16 straddling positions); oracle: a line wholly inside the first 4096 bytes is found, one starting at byte "
             ">= 4096 is found iff the marker occurs anywhere, a line cut by the boundary is not judged; non-trivial = distinct "
             "(offset class, marker position, found)")
 
@@ -731,6 +748,14 @@ class WindowStream(Stream):
         # a tag early in the file, then a lot of text
         for marker in ("none", "after"):
             yield {"off": 0, "marker": marker, "kind": "L", "wide": "é", "eol": "\n"}
+        # the marker far behind the tag, lying across a buffer-size-like offset (sb - sd .. sb - sd + 17): 4 KiB .. 1 MiB
+        bounds = BOUNDS_POW + BOUNDS_ODD
+        for sb in bounds:
+            ks = (1, 2, 3) if tier == "thorough" else (1,)
+            for k in ks:
+                for sd in (range(0, 18) if tier == "thorough" and sb * k <= (1 << 18) else [rng.randint(1, 16)]):
+                    yield {"off": rng.randint(4096, 4300), "marker": "straddle", "kind": rng.choice("LC"), "wide": rng.choice(WIDE),
+                           "eol": rng.choice(["\n", "\n", "\r\n"]), "sb": sb * k, "sd": sd}
 
     def data(self, case):
         """bytes of the file, (start, end) byte offsets of the tag line, planted value"""
@@ -777,7 +802,8 @@ class WindowStream(Stream):
         if case["marker"] == "straddle":
             # the marker itself lies across byte 4096 (the snippet test reads the whole file, so it counts)
             m = ("# " + SNIPPET + eol).encode()
-            pos = 4096 - 9
+            # the marker word itself starts sd bytes before the offset sb (sd = 1..16: it lies across sb; 0 / 17: it touches sb)
+            pos = case["sb"] - case["sd"] - 2 if "sb" in case else 4096 - 9
             if len(body) < pos + len(m) + 10:
                 body += fb * ((pos + len(m) + 10 - len(body)) // len(fb) + 1)
             if not (start - len(m) < pos < end):
@@ -790,7 +816,7 @@ class WindowStream(Stream):
 
     def model_lines(self, case):
         data, start, end, v = self.data(case)
-        return ["infofile\t%s\t%s" % (enc_bytes(data), enc_list(bad_values(data)))]
+        return model_infofile(data)
 
     def model_out(self, case, outs):
         return model_info_out(outs[0])
@@ -822,11 +848,11 @@ class WindowStream(Stream):
     def nontrivial(self, case, impl_out):
         data, start, end, v = self.data(case)
         cls = "inside" if end <= 4096 else ("after" if start >= 4096 else "cut")
-        return (cls, case["marker"], impl_out != canon([], [], []))
+        return (cls, case["marker"], impl_out != canon([], [], [])) + ((case["sb"],) if "sb" in case else ())
 
     def show(self, case):
         data, start, end, v = self.data(case)
-        return {"case": case, "size": len(data), "tag_line_bytes": [start, end]}
+        return {"case": case, "size": len(data), "tag_line_bytes": [start, end], "marker_at": data.find(SNIPPET.encode())}
 
 
 # --------------------------------------------------------------------------
@@ -836,7 +862,12 @@ class WindowStream(Stream):
 class SnippetFileStream(Stream):
     name = "snippetfile"
     rule = ("(a) the snippet marker placed so that it straddles a multiple of 4096 bytes (marker starting 1..16 bytes before 4096*k, k = 1, 2, "
-            "3), the only tags lying beyond byte 4096; (b) files of 8-20 KiB with a snippet marker (at the start, in the middle or at the end): "
+            "3), the only tags lying beyond byte 4096; (a') the same for every buffer-size-like offset B from 4 KiB to 1 MiB (the nine powers of "
+            "two; 10000, 12288, 24576, 40960, 100000, 196608, 327680, 1000000; multiples 2B, 3B): marker starting 1..16 bytes before the offset "
+            "(lying across it) and, as controls, ending or starting exactly at it, or lying wholly behind 70 KB / 300 KB / 1 MiB (thorough: up to "
+            "3 MiB); marker line in six comment spellings, LF / CRLF; tags right after the marker, far behind it, between byte 4096 and the "
+            "marker, with or without a notice in the head; (a'') a tag line itself lying across such an offset, the marker at the start, "
+            "before the tag or at the end of the file; files above 140 KiB are judged by the oracle only; (b) files of 8-20 KiB with a snippet marker (at the start, in the middle or at the end): "
             "tag lines, REUSE-IgnoreStart / REUSE-IgnoreEnd markers and hidden tags placed so that they straddle or directly follow the 4096-byte "
             "boundaries (a tag line cut by a boundary, an ignore block spanning a boundary with a hidden tag right after it, the ignore marker "
             "itself cut by a boundary); oracle = generator ground truth: exactly the tags planted outside ignore blocks are reported; "
@@ -845,10 +876,35 @@ class SnippetFileStream(Stream):
     IGN_S = "REUSE-IgnoreStart"
     IGN_E = "REUSE-IgnoreEnd"
 
+    LEADS = ["# ", "// ", "", "<!-- ", " * ", "\t# "]
+
     def cases(self, tier, rng):
         for k in (1, 2, 3):
             for d in range(1, 17):
                 yield {"plan": "marker-straddle", "k": k, "d": d}
+        # (a') the same across every buffer-size-like offset up to 1 MiB (thorough: their multiples up to 3 MiB, every position)
+        for B in BOUNDS_POW + BOUNDS_ODD:
+            if tier == "thorough":
+                combos = [(k, d) for k in (1, 2, 3) for d in range(0, 18)] if B <= (1 << 16) else \
+                         [(k, d) for k in (1, 2, 3) for d in sorted({0, 1, 8, 16, 17, rng.randint(2, 15), rng.randint(2, 15)})]
+            else:
+                combos = [(1, 1), (1, 16), (1, rng.randint(2, 15)), (1, rng.choice([0, 17]))]
+                if B <= (1 << 16):
+                    combos.append((rng.choice([2, 3]), rng.randint(1, 16)))
+            for k, d in combos:
+                yield {"plan": "straddle", "B": B, "k": k, "d": d, "lead": rng.choice(self.LEADS), "head": rng.random() < 0.3,
+                       "tags": rng.choice(["after", "after", "far", "before", "both"]), "gap": rng.randint(2, 3000),
+                       "eol": rng.choice(["\n", "\n", "\n", "\r\n"])}
+        # the marker wholly behind a large offset (a reader that stops looking after so many bytes)
+        for off in ([70000, 300000, (1 << 20) + 5000] if tier == "quick" else [5000, 70000, 140000, 300000, 600000, (1 << 20) + 5000, (1 << 21) + 77, 3 << 20]):
+            yield {"plan": "straddle", "B": off, "k": 1, "d": -rng.randint(3, 60), "lead": rng.choice(self.LEADS), "head": rng.random() < 0.5,
+                   "tags": rng.choice(["after", "far", "before", "both"]), "gap": rng.randint(2, 3000), "eol": "\n"}
+        # (a'') a TAG line lying across such an offset in a file whose marker stands elsewhere (a reader that scans the whole file piece by piece)
+        for B in BOUNDS_POW + BOUNDS_ODD:
+            for k in ((1, 2, 3) if tier == "thorough" else (1,)):
+                for _ in range(4 if tier == "thorough" else 1):
+                    yield {"plan": "tag-straddle", "B": B, "k": k, "r": rng.randint(1, 40), "kind": rng.choice("LC"),
+                           "marker": rng.choice(["start", "end", "before"]), "gap": rng.randint(2, 3000)}
         n = 400 if tier == "thorough" else 60
         for i in range(n):
             nb = rng.randint(2, 4)
@@ -879,6 +935,14 @@ class SnippetFileStream(Stream):
             if off > cur:
                 self.filler(off - cur)
 
+        def pad_exact(self, off):
+            gap = off - len(self.buf)
+            assert gap >= 0, (len(self.buf), off)
+            if gap == 1:
+                self.buf += b"\n"
+            else:
+                self.filler(gap)
+
         def tag(self, kind):
             self.n += 1
             if kind == "L":
@@ -907,6 +971,54 @@ class SnippetFileStream(Stream):
             b.tag("L")
             b.tag("C")
             b.filler(200)
+            b.line("# SPDX-SnippetEnd")
+            return bytes(b.buf), b.lic, b.cpr
+        if case["plan"] == "straddle":
+            # the marker word starts d bytes before the offset k*B (d = 1..16: across it; 0 / 17: touching it; d < 0: behind it); all
+            # tags beyond the first 4 KiB except an optional one in the head; no ignore blocks: every planted tag is to be reported
+            at = case["B"] * case["k"] - case["d"]
+            lead = case["lead"].encode()
+            if case["head"]:
+                b.tag("C")
+            line_start = at - len(lead)
+            beyond = False
+            if case["tags"] in ("before", "both") and line_start > 4096 + 400:
+                b.pad_to(4096 + 2 + case["gap"] % max(2, min(3000, line_start - 4096 - 300)))
+                b.tag("L")
+                b.tag("C")
+                beyond = True
+            b.pad_exact(line_start)
+            b.buf += lead + SNIPPET.encode() + (b" -->" if lead.startswith(b"<!--") else b"") + b"\n"
+            if case["tags"] in ("after", "both") or (case["tags"] == "before" and not beyond):
+                b.pad_to(max(len(b.buf), 4096 + 2))
+                b.tag("C")
+                b.tag("L")
+            b.filler(case["gap"])
+            if case["tags"] == "far":
+                b.filler(5000)
+                b.tag("L")
+                b.tag("C")
+            b.line("# SPDX-SnippetEnd")
+            data = bytes(b.buf)
+            if case["eol"] != "\n":
+                # CRLF: keep the marker's offset (the bytes before it are left alone), later line ends become CRLF
+                data = data[:at] + data[at:].replace(b"\n", case["eol"].encode())
+            assert data.find(SNIPPET.encode()) == at, (data.find(SNIPPET.encode()), at)
+            return data, b.lic, b.cpr
+        if case["plan"] == "tag-straddle":
+            at = case["B"] * case["k"] - case["r"]          # the tag line starts r bytes before the offset and ends behind it
+            if case["marker"] == "start":
+                b.line("# " + SNIPPET)
+            b.pad_to(4096 + 2)
+            b.tag("C")
+            if case["marker"] == "before" and at > 4096 + 200:
+                b.line("# " + SNIPPET)
+            b.pad_exact(at) if at >= len(b.buf) else None
+            b.tag(case["kind"])
+            b.tag("L")
+            b.filler(case["gap"])
+            if SNIPPET.encode() not in b.buf:
+                b.line("# " + SNIPPET)
             b.line("# SPDX-SnippetEnd")
             return bytes(b.buf), b.lic, b.cpr
         rng = random.Random(case["seed"])
@@ -967,7 +1079,7 @@ class SnippetFileStream(Stream):
 
     def model_lines(self, case):
         data, lic, cpr = self.build(case)
-        return ["infofile\t%s\t%s" % (enc_bytes(data), enc_list(bad_values(data)))]
+        return model_infofile(data)
 
     def model_out(self, case, outs):
         return model_info_out(outs[0])
@@ -986,11 +1098,191 @@ class SnippetFileStream(Stream):
     def nontrivial(self, case, impl_out):
         if case["plan"] == "marker-straddle":
             return ("marker-straddle", case["k"], case["d"])
+        if case["plan"] == "straddle":
+            return ("straddle", case["B"], case["k"], case["d"], case["tags"])
+        if case["plan"] == "tag-straddle":
+            return ("tag-straddle", case["B"], case["k"], case["marker"])
         return (tuple(case["scen"]), case["marker"])
 
     def show(self, case):
         data, lic, cpr = self.build(case)
         return {"case": case, "size": len(data), "marker_at": data.find(SNIPPET.encode())}
+
+
+# --------------------------------------------------------------------------
+# several copyright notations on one line: which of them is the notice
+
+
+# rank of a notation: the SPDX tag outranks the plain word, the plain word outranks the sign
+RANK = {"spdx": 3, "word": 2, "sign": 1, "neutral": 0}
+
+SPDX_TARGETS = ["SPDX-FileCopyrightText:", "SPDX-SnippetCopyrightText:", "SPDX-FileCopyrightText: (C)", "SPDX-FileCopyrightText: (c)",
+                "SPDX-SnippetCopyrightText: (C)", "SPDX-FileCopyrightText: ©", "SPDX-SnippetCopyrightText: ©", "SPDX-FileCopyrightText: Copyright",
+                "SPDX-FileCopyrightText: Copyright (C)", "SPDX-FileCopyrightText: Copyright ©", "SPDX-SnippetCopyrightText: Copyright (c)"]
+WORD_TARGETS = ["Copyright", "Copyright (C)", "Copyright (c)", "Copyright ©"]
+SIGN_TARGETS = ["©"]
+
+# text standing to the LEFT of the notice on the same line (a table cell, a few words of prose, a label); (rank, text, set off)
+# `set off` = the decoy ends in a separator or a word, so that it cannot be read as the beginning of the notice itself
+DECOYS = [
+    ("word", "Copyright notice:  ", True), ("word", "Copyright and licence -- ", True), ("word", "Copyright holder | ", True),
+    ("word", "Copyright (see AUTHORS): ", True), ("word", "Copyright\tnotice\t", True), ("word", "Copyright (c) notice: ", True),
+    ("word", "Copyright © holder: ", True), ("word", "Copyright of this snippet: ", True), ("word", "| Copyright | ", True),
+    ("word", "© Copyright notice: ", True), ("word", "Copyright © notice, see: ", True), ("word", "Copyright 2020 | ", True),
+    ("sign", "© see ", True), ("sign", "© | ", True), ("sign", "© notice: ", True), ("sign", "©  -- ", True), ("sign", "(c) © : ", True),
+    ("sign", "| © | ", True), ("sign", "© 2020: ", True), ("sign", "©\t", False), ("sign", "© ", False),
+    ("neutral", "(c) see: ", True), ("neutral", "(C) ", True), ("neutral", "Copyright: ", True), ("neutral", "Copyrights; ", True),
+    ("neutral", "Copyrighted material, ", True), ("neutral", "Copr. ", True), ("neutral", "notice: ", True), ("neutral", "©: ", True),
+    ("neutral", "©2020 ", True), ("neutral", "", True),
+]
+# holders that themselves mention a lower-ranking notation (to the RIGHT of the notice: part of the value); (highest rank inside, text)
+RIGHT_HOLDERS = [("word", "Jane Doe, Copyright holder"), ("word", "Jane Doe (Copyright 2019 Old Corp)"), ("word", "the Copyright Clearance Center"),
+                 ("sign", "ACME © dept"), ("sign", "Jane Doe (© 2019 Old Corp)"), ("sign", "Jane Doe ©")]
+
+
+def notation_targets():
+    return [("spdx", t) for t in SPDX_TARGETS] + [("word", t) for t in WORD_TARGETS] + [("sign", t) for t in SIGN_TARGETS]
+
+
+class NotationStream(Stream):
+    name = "notations"
+    rule = ("one physical line holding TWO copyright notations: a decoy to the left (31 texts: the word `Copyright ` / the sign `© ` / `(c)` "
+            "as a table cell, a label or a few words of prose - `# Copyright notice:  SPDX-FileCopyrightText: 2021 Jane Doe`, `| © | Copyright "
+            "2018 Bob`, `* (c) see: SPDX-...` -, or text that only looks like one: `Copyright:`, `©2020`) and the notice proper (16 prefixes: "
+            "SPDX-FileCopyrightText / SPDX-SnippetCopyrightText with and without (C) / © / Copyright, the word with and without (C) / ©, the "
+            "sign), 5 year forms, holders incl. holders that mention a lower-ranking notation to the RIGHT of the notice; every pair with "
+            "rank(decoy) < rank(notice) (SPDX tag > word > sign) in every (style, form) of the live table (sampled in the quick tier), "
+            "indentation, trailing blanks, LF / CRLF / CR, optionally a labelled licence line beside it; read with reuse_info_of_file, "
+            "extract_reuse_info and (sample) `reuse lint --json`. Reading demanded by the property text (`recognised with exactly the value "
+            "its author wrote ... the surrounding decoration never becomes part of the value`): the notice is the highest-ranking notation "
+            "of the line - an SPDX tag is the notice whatever words stand in front of it, the word `Copyright` is the notice when only a "
+            "sign stands in front of it - and its value runs from that notation to the end of the line less terminators; text to its "
+            "left is decoration. A decoy of the same or a higher rank than the notice is not generated (two notices on one line: not "
+            "decided by the property). non-trivial = distinct (decoy, prefix, form)")
+
+    def cases(self, tier, rng):
+        forms = style_forms()
+        targets = notation_targets()
+        exprs = expressions(rng, 12)
+        per = 6 if tier == "thorough" else 1
+
+        def mk(sname, form, f, decoy, target, holder=None, lint=False):
+            return {"style": sname, "form": form, "f": f, "decoy": decoy, "rank": target[0], "prefix": target[1], "y": rng.choice(YEARS),
+                    "h": holder or rng.choice(HOLDERS), "lead": rng.choice(["", "", "  ", "\t"]), "trail": rng.choice(["", "", " ", "\t"]),
+                    "eol": rng.choice(["\n", "\n", "\n", "\r\n", "\r"]), "lic": rng.choice([None, None] + exprs),
+                    "liclabel": rng.choice(["", "Licence:           ", "License | "]), "lint": lint}
+        nlint = 0
+        for di, (drank, dtext, setoff) in enumerate(DECOYS):
+            for target in targets:
+                if RANK[drank] >= RANK[target[0]]:
+                    continue
+                if not setoff and target[0] != "spdx":
+                    continue            # `© Copyright 2018 Bob`: the sign may be meant as part of the notice - not decided
+                for _ in range(per):
+                    sname, form, f = rng.choice(forms)
+                    lint = drank != "neutral" and nlint < (150 if tier == "thorough" else 24) and rng.random() < 0.08
+                    nlint += lint
+                    yield mk(sname, form, f, di, target, lint=lint)
+        # holders mentioning a lower-ranking notation, with and without a decoy
+        for hrank, h in RIGHT_HOLDERS:
+            for target in targets:
+                if RANK[hrank] >= RANK[target[0]]:
+                    continue
+                for _ in range(per):
+                    sname, form, f = rng.choice(forms)
+                    ds = [i for i, (r, _, so) in enumerate(DECOYS) if RANK[r] < RANK[target[0]] and (so or target[0] == "spdx")]
+                    yield mk(sname, form, f, rng.choice(ds), target, holder=h)
+        if tier == "thorough":
+            # every (style, form) with every decoy rank x notice rank pair
+            for sname, form, f in forms:
+                for target in targets:
+                    ds = [i for i, (r, _, so) in enumerate(DECOYS) if RANK[r] < RANK[target[0]] and (so or target[0] == "spdx")]
+                    for di in rng.sample(ds, min(3, len(ds))):
+                        yield mk(sname, form, f, di, target)
+
+    def build(self, case):
+        f, form, eol = case["f"], case["form"], case["eol"]
+        before, after = [], []
+        if form == "single":
+            base, close = case["lead"] + f["single"] + f["ias"], ""
+        elif form == "inline":
+            base, close = case["lead"] + f["start"] + " ", " " + f["end"]
+        elif form == "block":
+            before, after = [f["start"]], [f["ibe"] + f["end"]]
+            base, close = case["lead"] + f["ibm"] + f["middle"] + f["iam"], ""
+        else:
+            base, close = case["lead"], ""
+        decoy = DECOYS[case["decoy"]][1]
+        v = "%s %s%s" % (case["prefix"], (case["y"] + " ") if case["y"] else "", case["h"])
+        line = base + decoy + v + case["trail"] + close
+        lines = [line]
+        if case["lic"]:
+            lines.append(base + case["liclabel"] + LIC_TAG + " " + case["lic"] + close)
+        text = eol.join(before + lines + after) + eol
+        return {"text": text, "line": line, "v": v, "decoy": decoy}
+
+    def impl(self, case):
+        b = self.build(case)
+        data = b["text"].encode("utf-8")
+        out = impl_info_of_bytes(data)
+        if case["eol"] == "\n":
+            from reuse import extract
+            info = extract.extract_reuse_info(b["text"])
+            t = canon_info(info)
+            if t != out:
+                return "TEXT-FILE-DIFFER:%s:%s" % (t, out)
+        if case.get("lint"):
+            import cli
+            with cli.scratch("rv-c02n-") as d:
+                cli.write_tree(d, {"src/file.txt": data})
+                code, js, exc = cli.lint_json(d)
+                if exc is not None or js is None:
+                    return "EXC:lint:%r" % (exc,)
+                got = canon([], [], [])
+                for fobj in js.get("files", []):
+                    if fobj["path"].endswith("file.txt"):
+                        got = canon({e["value"] for e in fobj.get("spdx_expressions", [])}, {e["value"] for e in fobj.get("copyrights", [])}, [])
+                if got != out:
+                    return "LINT-FILE-DIFFER:%s:%s" % (got, out)
+        return out
+
+    def model_lines(self, case):
+        return model_infofile(self.build(case)["text"].encode("utf-8"))
+
+    def model_out(self, case, outs):
+        return model_info_out(outs[0])
+
+    def undecided(self, case, b):
+        v = b["v"]
+        f = case["f"]
+        if case["form"] in ("inline", "block") and f["end"] and v.rstrip(" \t").endswith(f["end"]):
+            return True
+        return False
+
+    def oracle(self, case, impl_out):
+        b = self.build(case)
+        if self.undecided(case, b):
+            return None
+        if impl_out.startswith(("EXC", "TEXT-FILE-DIFFER", "LINT-FILE-DIFFER")):
+            return "notations-crash: " + impl_out[:300]
+        want = canon({parse_expr(case["lic"])} if case["lic"] else [], [b["v"]], [])
+        if impl_out != want:
+            return ("notation-priority: line %r read as %s; the author's notice is %r (the highest-ranking notation of the line - SPDX tag, "
+                    "then the word, then the sign - is the notice; %r to its left is decoration)" % (
+                        b["line"], show_canon(impl_out), b["v"], b["decoy"]))
+        return None
+
+    def classify(self, case, failure):
+        if has_end_suffix(self.build(case)["v"]):
+            return "c02-foreign-terminator-tail"
+        return None
+
+    def nontrivial(self, case, impl_out):
+        return (case["decoy"], case["prefix"], case["form"])
+
+    def show(self, case):
+        b = self.build(case)
+        return {"style": case["style"], "form": case["form"], "line": b["line"], "planted": b["v"], "text": b["text"]}
 
 
 # --------------------------------------------------------------------------
@@ -1207,7 +1499,7 @@ def table_roundtrip():
 def search(seed):
     """deeper search after a broken obligation / disagreement: the grid and the window at thorough size"""
     import random
-    for S in (GridStream(), WindowStream(), SnippetFileStream(), ParseErrorStream(), SmallEnumStream()):
+    for S in (GridStream(), NotationStream(), WindowStream(), SnippetFileStream(), ParseErrorStream(), SmallEnumStream()):
         rng = random.Random("search:%s:%d" % (S.name, seed))
         known = {f["key"] for f in __import__("core").load_known().get("findings", []) if f.get("property") == "C02"}
         for case in S.cases("thorough", rng):
@@ -1224,7 +1516,7 @@ def search(seed):
 PROPERTY = Property(
     pid="C02",
     streams=[CorpusStream(), textcorr.FindTagStream(), textcorr.CSearchStream(), textcorr.ExtractStream(), SmallEnumStream(), GridStream(), TheoremStream(), TextTieStream(),
-             LintStream(), WindowStream(), SnippetFileStream(), ParseErrorStream(), DecodeStream()],
+             LintStream(), WindowStream(), SnippetFileStream(), NotationStream(), ParseErrorStream(), DecodeStream()],
     assumptions=[
         "CPython's re engine on the tag patterns (`^(.*?)TAG[ \\t]+(.*?)END$`, MULTILINE, findall) and on the three copyright patterns is "
         "mirrored by Model.findSpdxTagWith / Model.searchLineWith over the END pattern generated from the source, and compared on every run",
